@@ -150,6 +150,10 @@ func (fc *FnCtx) strLit(s string) *Term {
 		name = fmt.Sprintf("lit!%x!%d", hashString(s), len(s))
 	}
 	c := tb.Const(name, "Str")
+	if fc.litText == nil {
+		fc.litText = map[*Term]string{}
+	}
+	fc.litText[c] = s
 	var facts []*Term
 	facts = append(facts, tb.Eq(tb.App("s_len", "Int", c), tb.Int(int64(len(s)))))
 	for i := 0; i < len(s) && i < 64; i++ {
@@ -806,7 +810,7 @@ func (fc *FnCtx) indexAddr(in *ssa.IndexAddr, st *State) Val {
 		ln := tb.App("s_len", "Int", s)
 		fc.boundsCheck(st, tb.And(tb.Le(tb.Int(0), i), tb.Lt(i, ln)), "index")
 		es := fc.so.Sort(xt.Elem())
-		return &Addr{Kind: aElem, Ref: tb.App("s_arr", "Ref", s), Key: "E:" + es, Idx: tb.Add(tb.App("s_off", "Int", s), i), RootType: xt.Elem(), Type: xt.Elem()}
+		return &Addr{Kind: aElem, Ref: tb.App("s_arr", "Ref", s), Key: "E:" + es, Idx: tb.SIdx(tb.App("s_off", "Int", s), i), RootType: xt.Elem(), Type: xt.Elem()}
 	case *types.Pointer: // pointer to array
 		at := types.Unalias(xt.Elem()).Underlying().(*types.Array)
 		fc.boundsCheck(st, tb.And(tb.Le(tb.Int(0), i), tb.Lt(i, tb.Int(at.Len()))), "index")
